@@ -5,9 +5,9 @@ set -e
 cd "$(dirname "$0")/.."
 export CARGO_NET_OFFLINE=true
 mkdir -p work evidence
+python3 tools/harvest_docs.py
 python3 tools/catalogue.py
 python3 tools/gen_formats.py
-python3 tools/harvest_docs.py
 for m in spec/*.tla; do
   (cd spec && tla-sany "$(basename "$m")" > ../work/sany.log 2>&1) || { cat work/sany.log; exit 1; }
 done
